@@ -579,6 +579,8 @@ def stream_mask(ctx, n):
                 fam = [('base', base)] + [(f, vary_note(rng, base, f)) for f in [rng.choice(NOTE_FIELDS) for _ in range(5)]]
                 fam = [(f, v) for f, v in fam if v is not None]
             descs = [j for _, j in fam]
+            if not descs:
+                continue          # every member of a wide-degree family was filtered out (seen once in a thorough run)
             members = rng.sample(descs, min(len(descs), rng.randint(1, 3)))
             probe = rng.choice(descs)
             flags = [rng.random() < 0.3, rng.random() < 0.3] if kind == 'note' else [rng.random() < 0.3]
